@@ -298,7 +298,9 @@ func c11Ageing(ev *vlib.Evidence, n int) {
 			scs = append(scs, sc)
 		}
 	}
+	poolFinish := c11PoolAgeingPrepare(ev, n/6+4)
 	time.Sleep(21 * time.Second)
+	defer poolFinish()
 	for _, sc := range scs {
 		if sc.dead {
 			continue
@@ -353,6 +355,202 @@ func c11Ageing(ev *vlib.Evidence, n int) {
 	}
 }
 
+// c11PoolAgeingPrepare is the endpoint-level counterpart of the ageing
+// scenarios: an observer reports hosts whose check-in is 105-110 s old (they
+// become tracked), the shared real wait carries the recorded stamps past the
+// window, some hosts check in themselves, and the observer's next signed
+// vipnode_update (reporting only a subset, nothing, or an unknown id) must
+// list exactly the model's peers in invalid_peers and active_peers. The
+// returned function runs the part after the wait.
+func c11PoolAgeingPrepare(ev *vlib.Evidence, n int) func() {
+	type scenario struct {
+		driver  string
+		idx     int
+		w       *vlib.World
+		model   *vlib.RefStore
+		obs     *vlib.Identity
+		hosts   []*vlib.Identity
+		conns   map[string]*vlib.Conn
+		uri     map[string]string
+		checkin []bool
+		report  []*vlib.Identity
+		unknown bool
+		trace   []string
+		dead    bool
+	}
+	scs := []*scenario{}
+	for _, driver := range vlib.Drivers() {
+		for j := 0; j < n; j++ {
+			r := vlib.Rand("C11-pool-ageing-"+driver, j)
+			w, err := vlib.NewWorld(vlib.WorldOptions{Driver: driver})
+			if err != nil {
+				panic(err)
+			}
+			sc := &scenario{driver: driver, idx: j, w: w, model: vlib.NewRefStore(), conns: map[string]*vlib.Conn{}, uri: map[string]string{}}
+			scs = append(scs, sc)
+			register := func(id *vlib.Identity, host bool) bool {
+				var c *vlib.Conn
+				var err error
+				t0 := time.Now()
+				if host {
+					c, err = w.ConnectHost(id, "geth", fmt.Sprintf("192.0.2.%d:4000", 10+len(sc.conns)))
+				} else {
+					c, err = w.ConnectClient(id, "geth", "192.0.2.9:4000")
+				}
+				if err != nil {
+					ev.Violate("pool:connect-failed", map[string]interface{}{"driver": driver, "index": j, "err": err.Error()})
+					sc.dead = true
+					return false
+				}
+				sc.conns[id.NodeID] = c
+				nn, _ := w.RawStore.GetNode(store.NodeID(id.NodeID))
+				sc.model.SetNode(*nn)
+				sc.model.Nodes[id.NodeID].SeenLo = t0
+				sc.uri[id.NodeID] = nn.URI
+				return true
+			}
+			sc.obs = vlib.NewIdentity("c11ageobs", j%11)
+			if !register(sc.obs, r.Intn(2) == 0) {
+				continue
+			}
+			nh := 2 + r.Intn(3)
+			infos := []ethnode.PeerInfo{}
+			ids := []string{}
+			for i := 0; i < nh && !sc.dead; i++ {
+				h := vlib.NewIdentity("c11agehost", (j*5+i)%29)
+				if !register(h, true) {
+					break
+				}
+				sc.hosts = append(sc.hosts, h)
+				age := vlib.Pick(r, 105, 108, 110, 110, 0)
+				nn, _ := w.RawStore.GetNode(store.NodeID(h.NodeID))
+				cp := *nn
+				cp.LastSeen = time.Now().Add(-time.Duration(age) * time.Second)
+				w.RawStore.SetNode(cp)
+				sc.model.Nodes[h.NodeID].Node.LastSeen = cp.LastSeen
+				sc.model.Nodes[h.NodeID].SeenLo, sc.model.Nodes[h.NodeID].SeenHi = cp.LastSeen, cp.LastSeen
+				sc.trace = append(sc.trace, fmt.Sprintf("host %s check-in %ds old", h.Name, age))
+				sc.checkin = append(sc.checkin, r.Intn(3) == 0)
+				infos = append(infos, ethnode.PeerInfo{ID: h.NodeID})
+				ids = append(ids, h.NodeID)
+			}
+			if sc.dead {
+				continue
+			}
+			t0 := time.Now()
+			resp, err := w.Update(sc.conns[sc.obs.NodeID].AgentSide, sc.obs, infos, 1)
+			if err != nil {
+				ev.Violate("pool:update-failed", map[string]interface{}{"driver": driver, "index": j, "err": err.Error(), "trace": sc.trace})
+				sc.dead = true
+				continue
+			}
+			mres, ok := sc.model.UpdateNodePeers(sc.obs.NodeID, ids, 1, t0, time.Now())
+			if !ok {
+				sc.dead = true
+				ev.Inconclusive("time-class")
+				continue
+			}
+			sc.trace = append(sc.trace, fmt.Sprintf("update obs reports all %d hosts -> invalid=%d active=%d", len(ids), len(resp.InvalidPeers), len(resp.ActivePeers)))
+			if got := strings.Join(sortedCopy(resp.InvalidPeers), ","); got != strings.TrimPrefix(mres, "ok inactive=") {
+				ev.Violate("pool-ageing:"+driver+":InvalidPeers", map[string]interface{}{"driver": driver, "index": j, "got": abbrevList(resp.InvalidPeers), "want": abbrevCSV(strings.TrimPrefix(mres, "ok inactive=")), "trace": sc.trace})
+				sc.dead = true
+				continue
+			}
+			switch r.Intn(4) {
+			case 0:
+			case 1:
+				sc.unknown = true
+			default:
+				for _, h := range sc.hosts {
+					if r.Intn(2) == 0 {
+						sc.report = append(sc.report, h)
+					}
+				}
+			}
+		}
+	}
+	return func() {
+		for _, sc := range scs {
+			func() {
+				defer sc.w.Close()
+				if sc.dead {
+					return
+				}
+				for i, h := range sc.hosts {
+					if !sc.checkin[i] {
+						continue
+					}
+					t0 := time.Now()
+					if _, err := sc.w.Update(sc.conns[h.NodeID].AgentSide, h, nil, 2); err != nil {
+						ev.Violate("pool:update-failed", map[string]interface{}{"driver": sc.driver, "index": sc.idx, "err": err.Error(), "trace": sc.trace})
+						return
+					}
+					sc.model.UpdateNodePeers(h.NodeID, nil, 2, t0, time.Now())
+					sc.trace = append(sc.trace, "[+21s] checkin "+h.Name)
+				}
+				infos := []ethnode.PeerInfo{}
+				ids := []string{}
+				names := []string{}
+				for _, h := range sc.report {
+					infos = append(infos, ethnode.PeerInfo{ID: h.NodeID})
+					ids = append(ids, h.NodeID)
+					names = append(names, h.Name)
+				}
+				if sc.unknown {
+					u := vlib.NewIdentity("c11unknown", 1).NodeID
+					infos = append(infos, ethnode.PeerInfo{ID: u})
+					ids = append(ids, u)
+					names = append(names, "unknown")
+				}
+				for round := 0; round < 2; round++ {
+					if round == 1 {
+						infos, ids, names = nil, nil, nil // a second keep-alive must not declare forgotten peers again
+					}
+					t0 := time.Now()
+					resp, err := sc.w.Update(sc.conns[sc.obs.NodeID].AgentSide, sc.obs, infos, uint64(3+round))
+					t1 := time.Now()
+					if err != nil {
+						ev.Violate("pool:update-failed", map[string]interface{}{"driver": sc.driver, "index": sc.idx, "err": err.Error(), "trace": sc.trace})
+						return
+					}
+					mres, ok := sc.model.UpdateNodePeers(sc.obs.NodeID, ids, uint64(3+round), t0, t1)
+					if !ok {
+						ev.Inconclusive("time-class")
+						return
+					}
+					wantInvalid := strings.TrimPrefix(mres, "ok inactive=")
+					wantActive := []string{}
+					for p := range sc.model.Peers[sc.obs.NodeID] {
+						if _, reg := sc.model.Nodes[p]; reg {
+							wantActive = append(wantActive, sc.uri[p])
+						}
+					}
+					sort.Strings(wantActive)
+					sc.trace = append(sc.trace, fmt.Sprintf("[+21s] update obs peers=%v -> invalid=%d active=%d", names, len(resp.InvalidPeers), len(resp.ActivePeers)))
+					if got := strings.Join(sortedCopy(resp.InvalidPeers), ","); got != wantInvalid {
+						ev.Violate("pool-ageing:"+sc.driver+":InvalidPeers", map[string]interface{}{"driver": sc.driver, "index": sc.idx, "got": abbrevList(resp.InvalidPeers), "want": abbrevCSV(wantInvalid), "trace": sc.trace})
+						return
+					}
+					if got := strings.Join(sortedCopy(resp.ActivePeers), ","); got != strings.Join(wantActive, ",") {
+						ev.Violate("pool-ageing:"+sc.driver+":ActivePeers", map[string]interface{}{"driver": sc.driver, "index": sc.idx, "got": sortedCopy(resp.ActivePeers), "want": wantActive, "trace": sc.trace})
+						return
+					}
+					if round == 0 {
+						ev.Case("pool-ageing "+sc.driver+strings.Join(sc.trace, ";"), wantInvalid != "")
+						ev.Count("pool-ageing-scenarios", 1)
+						if wantInvalid != "" {
+							ev.Count("pool-ageing-evictions", 1)
+						}
+					}
+				}
+				if sc.idx == 0 {
+					ev.Sample(map[string]interface{}{"layer": "pool-ageing", "driver": sc.driver, "trace": sc.trace})
+				}
+			}()
+		}
+	}
+}
+
 // c11Concurrent: an observer's keep-alive races the keep-alive of a reported
 // peer whose last check-in is stale. Either order is fine, but the answer must
 // be consistent: a peer declared invalid is not tracked afterwards, and the
@@ -400,7 +598,7 @@ func c11Concurrent(ev *vlib.Evidence, driver string, s store.Store, idx int) {
 
 func TestC11(t *testing.T) {
 	ev := vlib.NewEvidence("C11", "exploration",
-		"concurrent: an observer's keep-alive racing the keep-alive of a stale reported peer (declared-invalid and still-tracked must disagree); ageing: tracked stamps recorded 105-110 s old are aged past the window by one shared 21 s real wait, with peers that check in themselves without being re-reported, re-reported peers, empty and unknown-only reports, and a second keep-alive afterwards; store level: histories of one observer and 3-4 peers (SetNode with LastSeen ages {0,60,110,130,180,3600 s}, observer and peer keep-alives, unknown/duplicate/self ids) on both drivers vs the tracked-peer model; pool level: signed vipnode_update sessions (ids given directly or inside enode:// URIs) comparing InvalidPeers/ActivePeers/NodePeers with the model; non-trivial = at least one peer was declared invalid (store level: >=3 mutations); distinct = distinct histories")
+		"concurrent: an observer's keep-alive racing the keep-alive of a stale reported peer (declared-invalid and still-tracked must disagree); ageing: tracked stamps recorded 105-110 s old are aged past the window by one shared 21 s real wait, with peers that check in themselves without being re-reported, re-reported peers, empty and unknown-only reports, and a second keep-alive afterwards, at store level and through signed vipnode_update sessions (invalid_peers/active_peers vs the model); store level: histories of one observer and 3-4 peers (SetNode with LastSeen ages {0,60,110,130,180,3600 s}, observer and peer keep-alives, unknown/duplicate/self ids) on both drivers vs the tracked-peer model; pool level: signed vipnode_update sessions (ids given directly or inside enode:// URIs) comparing InvalidPeers/ActivePeers/NodePeers with the model; non-trivial = at least one peer was declared invalid (store level: >=3 mutations); distinct = distinct histories")
 	ev.Assume("the 120 s window is only approached to ±10 s; cases longer than 5 s wall are inconclusive")
 	ageDone := make(chan struct{})
 	go func() { c11Ageing(ev, vlib.Scale(150, 2000)); close(ageDone) }()
